@@ -846,8 +846,12 @@ class StaticVector : public StaticVectorBase<T, SizeType> {
 
   template <class VectorType>
   void swap2_impl(VectorType &o) noexcept(is_swap_noexcept<T>::value) {
-    swap_deep(this->begin(), this->size(), o.begin(), o.size());
-    swap_sizetype(this->msize(), o.msize());
+    // Capacities have been adjusted: each size fits in the other's size type
+    const SizeType mySize = this->size();
+    const typename VectorType::size_type oSize = o.size();
+    swap_deep(this->begin(), mySize, o.begin(), oSize);
+    this->setSize(static_cast<SizeType>(oSize));
+    o.setSize(static_cast<typename VectorType::size_type>(mySize));
   }
 
   // Adjust capacity methods take uintmax_t as parameter to check for size_type overflow
@@ -961,19 +965,40 @@ class DynamicVector : public DynamicVectorBaseTypeDispatcher<T, Alloc, SizeType,
   template <class OSizeType, class OGrowingPolicy>
   void swap2_impl(StaticVector<T, OSizeType, OGrowingPolicy> &o) noexcept(is_swap_noexcept<T>::value) {
     // Here 'o' cannot grow so we cannot swap any dynamic storage. Deeply swap all elements
-    swap_deep(this->begin(), this->size(), o.begin(), o.size());
-    swap_sizetype(this->msize(), o.msize());
+    // Capacities have been adjusted: each size fits in the other's size type
+    const SizeType mySize = this->size();
+    const OSizeType oSize = o.size();
+    swap_deep(this->begin(), mySize, o.begin(), oSize);
+    this->setSize(static_cast<SizeType>(oSize));
+    o.setSize(static_cast<OSizeType>(mySize));
   }
 
   template <class OAlloc, class OSizeType, bool OWithInlineElems>
   void swap2_impl(DynamicVector<T, OAlloc, OSizeType, OWithInlineElems> &o) noexcept(is_swap_noexcept<T>::value) {
-    if (this->canSwapDynStorage(o)) {
+    if (this->canSwapDynStorageAndWords(o)) {
+      // Both are in large state: msize() is the real size word as long as the capacity words are not exchanged yet.
+      // No overflow possible: canSwapDynStorageAndWords checked that capacities fit in each other's size type.
+      swap_sizetype(this->msize(), o.msize());
       this->swapDynStorage(o);
       swap_sizetype(this->mcapacity(), o.mcapacity());
     } else {
-      swap_deep(this->begin(), this->size(), o.begin(), o.size());
+      // Capacities have been adjusted: each size fits in the other's size type
+      const SizeType mySize = this->size();
+      const OSizeType oSize = o.size();
+      swap_deep(this->begin(), mySize, o.begin(), oSize);
+      this->setSize(static_cast<SizeType>(oSize));
+      o.setSize(static_cast<OSizeType>(mySize));
     }
-    swap_sizetype(this->msize(), o.msize());
+  }
+
+  /// Dynamic storage (with its size and capacity) can be exchanged only if it is possible for the storage itself
+  /// and if both capacities can be represented in each other's size type
+  template <class VectorType>
+  bool canSwapDynStorageAndWords(VectorType &o) const noexcept {
+    return this->canSwapDynStorage(o) &&
+           static_cast<uintmax_t>(o.capacity()) <= static_cast<uintmax_t>(std::numeric_limits<SizeType>::max()) &&
+           static_cast<uintmax_t>(this->capacity()) <=
+               static_cast<uintmax_t>(std::numeric_limits<typename VectorType::size_type>::max());
   }
 
   // Adjust capacity methods take uintmax_t as parameter to check for size_type overflow
@@ -1024,7 +1049,7 @@ class DynamicVector : public DynamicVectorBaseTypeDispatcher<T, Alloc, SizeType,
   /// (as the two size types may differ we should use LargestSizeType to avoid overflows)
   template <class VectorType>
   void adjustEachOtherCapacity(VectorType &o) {
-    if (!this->canSwapDynStorage(o)) {
+    if (!this->canSwapDynStorageAndWords(o)) {
       adjustCapacity(o.size());
       o.adjustCapacity(this->size());
     }
